@@ -1191,7 +1191,7 @@ const COLORS: [RGBA; 16] = [
     RGBA::new(255, 255, 255, 255),
 ];
 
-fn sgr_color<'a>(mut cmds: impl Iterator<Item = &'a [u8]>) -> Option<RGBA> {
+fn sgr_color<'a>(mut cmds: impl Iterator<Item = &'a [u8]>, sub_params: bool) -> Option<RGBA> {
     match number_decode(cmds.next()?)? {
         5 => {
             // color from 256 color palette
@@ -1216,16 +1216,23 @@ fn sgr_color<'a>(mut cmds: impl Iterator<Item = &'a [u8]>) -> Option<RGBA> {
         2 => {
             // true color
             //
-            // It can contain either three or four components
-            // in the case of four first component is ignored
+            // Colon separated sub-parameters can contain either three or four
+            // components, in the case of four first component is ignored.
+            // Semicolon separated form has exactly three components, anything
+            // that follows is the next SGR parameter.
             match [
                 cmds.next().and_then(number_decode),
                 cmds.next().and_then(number_decode),
                 cmds.next().and_then(number_decode),
-                cmds.next().and_then(number_decode),
+                if sub_params {
+                    cmds.next().and_then(number_decode)
+                } else {
+                    None
+                },
             ] {
                 [Some(r), Some(g), Some(b), None] | [_, Some(r), Some(g), Some(b)] => {
-                    Some(RGBA::new(r as u8, g as u8, b as u8, 255))
+                    let channel = |value: usize| u8::try_from(value).ok();
+                    Some(RGBA::new(channel(r)?, channel(g)?, channel(b)?, 255))
                 }
                 _ => None,
             }
@@ -1244,9 +1251,9 @@ fn sgr_face(data: &[u8]) -> FaceModify {
         let args_empty = args.size_hint().0 == 0;
         let mut sgr_color_thunk = || {
             if args_empty {
-                sgr_color(&mut groups)
+                sgr_color(&mut groups, false)
             } else {
-                sgr_color(&mut args)
+                sgr_color(&mut args, true)
             }
         };
         match cmd {
@@ -1258,18 +1265,20 @@ fn sgr_face(data: &[u8]) -> FaceModify {
             }
             // bold
             Some(1) => face.bold = Some(true),
-            Some(21) => face.bold = Some(false),
+            Some(22) => face.bold = Some(false),
             // italic
             Some(3) => face.italic = Some(true),
             Some(23) => face.italic = Some(false),
             // underline
             Some(4) => match args.next().and_then(number_decode) {
+                Some(0) => face.underline = Some(UnderlineStyle::None),
                 Some(2) => face.underline = Some(UnderlineStyle::Double),
                 Some(3) => face.underline = Some(UnderlineStyle::Curly),
                 Some(4) => face.underline = Some(UnderlineStyle::Dotted),
                 Some(5) => face.underline = Some(UnderlineStyle::Dashed),
                 _ => face.underline = Some(UnderlineStyle::Straight),
             },
+            Some(21) => face.underline = Some(UnderlineStyle::Double),
             Some(24) => face.underline = Some(UnderlineStyle::None),
             // blink
             Some(5) => face.blink = Some(true),
